@@ -8,7 +8,7 @@ claim('C12',
       'engine are trusted, every model is replayed natively.',
       'symbolic execution of the real code with z3 (minisym), validity queries per path', 'DESIGN.md §4 C12')
 _todo = ('check not built yet in this round; see DESIGN.md §8 build order')
-for _p in ['C03', 'C05', 'C06', 'C11', 'C14', 'C15', 'C16', 'C17', 'C20']:
+for _p in [ 'C05', 'C06', 'C11', 'C14', 'C15', 'C16', 'C17', 'C20']:
     na(_p, _todo)
 na('C19', 'PYTHONHASHSEED / process effects live in CPython C code and start-up, not reachable by symbolic execution of '
           'chython; modelling set order as arbitrary would over-approximate and raise false alarms (DESIGN.md C19)')
@@ -109,3 +109,16 @@ claim('C07',
       'exchanges of whole identical components by get_automorphism_mapping are not claimed.',
       'symbolic execution of the real matcher with z3-decided label equalities (minisym), brute-force oracle on the same '
       'symbolic labels', 'DESIGN.md §4 C07')
+claim('C03',
+      'The tokenizer is re-compiled from its current source with character tests lifted to symbolic characters and run, '
+      'with the real parser, on every string of length <= 3 (quick; 4 thorough) and on 15 templates with symbolic '
+      'characters at variable positions, each character ranging over all of Unicode (ASCII individually, non-ASCII by the '
+      'classes the code can observe); the parse record is compared with an independent OpenSMILES-subset reader on the same '
+      'symbolic string (atoms, isotopes, charges, hydrogens, maps, chirality marks, bonds and implicit orders, neighbour '
+      'order, ring-closure pairing, direction marks), acceptance is judged at the public entry point, and any exception '
+      'other than ValueError is a violation; bracket atoms from solver-enumerated field values (every charge spelling); '
+      'reaction arrows, CXSMILES radicals and fragment grouping.',
+      'Bounded by string length / templates; a leading parenthesised group is treated as part of the language because the '
+      'parser admits it on purpose; regex matching runs on realised bracket contents; the reference reader is mine.',
+      'symbolic execution of the source-lifted tokenizer and the real parser with z3 (minisym), differential against an '
+      'independent reader', 'DESIGN.md §4 C03')
